@@ -7,7 +7,7 @@ Model   : Model/Compiler.lean (`serveCompiled`, `serveVersioned`, `serveWith`: c
           per-tree tables, version cache) on top of Model/Radix.lean (the tree engine)
 Oracle  : the tree engine itself (`serve`), both engines built from the same registration script
 Classes : Spec/CompiledClass.lean (`dOrder1` K11a, `normal` K11e; K11d and K11f were repaired) and the
-          tree-side classes of C01 (`dShadow1`, `dCfall1`, and `dSameShape1`, the same-shape part of K01c)
+          tree-side class of C01 (K01c `overwrite`: `dSameShape1`, `dReplaced1`)
 
 `hash` (FNV-1a in the code) is an arbitrary function; the theorems state as a hypothesis that it
 separates the keys in play.
@@ -104,8 +104,8 @@ theorem compiled_eq_tree_partial (hash : Bytes → Nat) (sat : Nat → Bytes →
     (hstd : ∀ g ∈ script, g.method ∈ stdMethods)
     (req : Req) (hp : req.path.head? = some '/') (hmeth : '/' ∉ req.method)
     (hinj : InjOn hash (hashKeys R req))
-    (hS : dShadow1 R req.method (cutAny req.path) = false) (hNm : dSameShape1 R req.method (cutAny req.path) = false)
-    (hC : dCfall1 sat R req.method (cutAny req.path) = false)
+    (hNm : dSameShape1 sat R req.method (cutAny req.path) = false)
+    (hOw : dReplaced1 sat R req.method (cutAny req.path) = false)
     (hO : dOrder1 sat R req.method (cutAny req.path) = false) :
     serveCompiled hash sat o script noRoute req = serve sat (build noRoute script) req := by
   obtain ⟨hStat, hGood⟩ := lemma_good script R hR hN hstd
@@ -113,13 +113,13 @@ theorem compiled_eq_tree_partial (hash : Bytes → Nat) (sat : Nat → Bytes →
   simp only
   cases h1 : (rcBuild hash script).lookupStatic hash req.method req.path with
   | some cr =>
-    exact stage1_eq hash sat noRoute script R hR hN hStat hstd req hp hmeth (lemma_inj1 hash R req hinj) cr h1
+    exact stage1_eq hash sat noRoute script R hR hN hStat hstd req hp hmeth (lemma_inj1 hash R req hinj) hOw cr h1
   | none =>
     simp only
     cases h2 : (rcBuild hash script).matchDynamic sat req.method req.path with
     | some res =>
       obtain ⟨cr, e⟩ := res
-      exact stage2_eq hash sat noRoute script R hR hN hGood hstd req hp hS hNm hC hO cr e h2
+      exact stage2_eq hash sat noRoute script R hR hN hGood hstd req hp hNm hOw hO cr e h2
     | none =>
       simp only
       unfold serve
@@ -153,8 +153,8 @@ theorem C11_partial (hash : Bytes → Nat) (sat : Nat → Bytes → Bool) (o : O
     (hstd : ∀ g ∈ script, g.method ∈ stdMethods)
     (req : Req) (hp : req.path.head? = some '/') (hmeth : '/' ∉ req.method)
     (hinj : InjOn hash (hashKeys R req))
-    (hS : dShadow1 R req.method (cutAny req.path) = false) (hNm : dSameShape1 R req.method (cutAny req.path) = false)
-    (hC : dCfall1 sat R req.method (cutAny req.path) = false)
+    (hNm : dSameShape1 sat R req.method (cutAny req.path) = false)
+    (hOw : dReplaced1 sat R req.method (cutAny req.path) = false)
     (hO : dOrder1 sat R req.method (cutAny req.path) = false) :
     serveWith hash sat o script noRoute req =
       serveWith hash sat { compiled := false, bloomSize := 0, bloomK := 0, versioned := o.versioned, warmAt := o.warmAt } script noRoute req := by
@@ -165,7 +165,7 @@ theorem C11_partial (hash : Bytes → Nat) (sat : Nat → Bytes → Bool) (o : O
   · simp only [hv, Bool.false_eq_true, if_false]
     by_cases hc : o.compiled = true
     · simp only [hc, if_true]
-      exact compiled_eq_tree_partial hash sat o noRoute script R hR hN hstd req hp hmeth hinj hS hNm hC hO
+      exact compiled_eq_tree_partial hash sat o noRoute script R hR hN hstd req hp hmeth hinj hNm hOw hO
     · simp [hc]
 
 /-- **Every difference between the two engines is classified**: where the driver prints `-` the
@@ -183,19 +183,16 @@ theorem classify11_dash (hash : Bytes → Nat) (sat : Nat → Bytes → Bool) (o
   cases hN : normal R with
   | false => simp [hN] at hcls
   | true =>
-    cases hNm : dSameShape1 R req.method (cutAny req.path) with
+    cases hNm : dSameShape1 sat R req.method (cutAny req.path) with
     | true => simp [hN, hNm] at hcls
     | false =>
-      cases hS : dShadow1 R req.method (cutAny req.path) with
-      | true => simp [hN, hNm, hS] at hcls
+      cases hOw : dReplaced1 sat R req.method (cutAny req.path) with
+      | true => simp [hN, hNm, hOw] at hcls
       | false =>
-        cases hC : dCfall1 sat R req.method (cutAny req.path) with
-        | true => simp [hN, hNm, hS, hC] at hcls
+        cases hO : dOrder1 sat R req.method (cutAny req.path) with
+        | true => simp [hN, hNm, hOw, hO] at hcls
         | false =>
-          cases hO : dOrder1 sat R req.method (cutAny req.path) with
-          | true => simp [hN, hNm, hS, hC, hO] at hcls
-          | false =>
-            exact C11_partial hash sat o noRoute script R hR hN hstd req hp hmeth hinj hS hNm hC hO
+          exact C11_partial hash sat o noRoute script R hR hN hstd req hp hmeth hinj hNm hOw hO
 
 /-! ### witnesses of the recorded findings (replayed on the implementation: corpus/C11) and of the
 repaired ones -/
@@ -280,12 +277,12 @@ static siblings, a second method, a wildcard and the root, a 7-bit bloom filter 
 and a hash that separates the keys; the compiled dynamic stage is the one that answers -/
 example : ∃ R, specRoutes exScript = some R ∧ normal R = true ∧
     (∀ g ∈ exScript, g.method ∈ stdMethods) ∧ exReq.path.head? = some '/' ∧ '/' ∉ exReq.method ∧
-    dShadow1 R exReq.method (cutAny exReq.path) = false ∧ dSameShape1 R exReq.method (cutAny exReq.path) = false ∧
-    dCfall1 exSat R exReq.method (cutAny exReq.path) = false ∧ dOrder1 exSat R exReq.method (cutAny exReq.path) = false ∧
+    dSameShape1 exSat R exReq.method (cutAny exReq.path) = false ∧
+    dReplaced1 exSat R exReq.method (cutAny exReq.path) = false ∧ dOrder1 exSat R exReq.method (cutAny exReq.path) = false ∧
     InjOn polyHash (hashKeys R exReq) ∧
     ((rcBuild polyHash exScript).matchDynamic exSat exReq.method exReq.path).isSome = true ∧
     (serveCompiled polyHash exSat exOpts exScript false exReq).lookups = [(B "id", B "42")] :=
-  ⟨_, rfl, by decide, by decide, by decide, by decide, by decide, by decide, by decide, by decide,
+  ⟨_, rfl, by decide, by decide, by decide, by decide, by decide, by decide, by decide,
    by unfold InjOn; decide, by decide, by decide⟩
 
 /-- the placement of the explicit `Warmup()` is part of the versioned engine: the version cache keeps the
